@@ -62,12 +62,15 @@ pub struct Case {
     pub fault: Option<(i64, i32)>,
     /// how the builder is obtained (ops::BUILDER_STYLE): auto-sync is the default whichever way
     pub builder: u8,
+    /// any single fault instead: (index of the call in the fault-free trace, its kind, what happens)
+    pub any_fault: Option<(u64, Kind, Action)>,
 }
 
 impl Case {
     fn to_json(&self) -> Value {
         json!({"cell": self.cell.to_json(), "planted": size_code(self.planted), "maintain": self.maintain,
-               "fault": self.fault.map(|f| json!([f.0, f.1])), "builder": self.builder})
+               "fault": self.fault.map(|f| json!([f.0, f.1])), "builder": self.builder,
+               "any_fault": self.any_fault.map(|(k, kind, a)| json!([k, format!("{:?}", kind), crate::props::c18::action_json(&a)]))})
     }
     fn from_json(v: &Value) -> Case {
         Case {
@@ -76,6 +79,8 @@ impl Case {
             maintain: v["maintain"].as_bool().unwrap(),
             fault: v["fault"].as_array().map(|a| (a[0].as_i64().unwrap(), a[1].as_i64().unwrap() as i32)),
             builder: v["builder"].as_u64().unwrap_or(0) as u8,
+            // (the kind is re-derived from the fault-free trace on replay)
+            any_fault: v["any_fault"].as_array().map(|a| (a[0].as_u64().unwrap(), Kind::Other, crate::props::c18::action_from(&a[2]))),
         }
     }
 }
@@ -103,7 +108,15 @@ fn run_case(case: &Case) -> CellRun {
     CONTROLLER.with(|c| {
         *c.borrow_mut() = case.fault.map(|(nth, errno)| {
             Arc::new(FsyncFault { nth, errno, seen: AtomicI64::new(0) }) as Arc<dyn Controller>
-        })
+        });
+        if let Some((k, kind, a)) = case.any_fault {
+            *c.borrow_mut() = Some(Arc::new(crate::props::c18::FailAt {
+                faults: vec![(k, a)],
+                kinds: vec![if kind == Kind::Other { None } else { Some(kind) }],
+                n: std::sync::atomic::AtomicU64::new(0),
+                hit: std::sync::Mutex::new(vec![]),
+            }) as Arc<dyn Controller>);
+        }
     });
     crate::ops::BUILDER_STYLE.with(|b| b.set(case.builder));
     let run = run_cell(&case.cell);
@@ -115,8 +128,9 @@ fn run_case(case: &Case) -> CellRun {
 }
 
 fn is_publication(e: &Ev, write_root: &str) -> bool {
+    // (a link/rename that took effect but was made to report failure has published all the same)
     matches!(e.kind, Kind::Rename | Kind::Link)
-        && e.ok()
+        && (e.ok() || e.effect_done)
         && e.path2.as_ref().map(|p| p.starts_with(write_root) && !p.contains("/.kismet_temp/")).unwrap_or(false)
 }
 
@@ -126,6 +140,13 @@ fn is_content(e: &Ev, ino: u64) -> bool {
 
 /// The per-inode ordering invariant on a bare call trace (any number of participants).
 pub fn order_violations(trace: &[Ev], root: &str, expect_flush: bool) -> Vec<(String, String)> {
+    order_violations_opt(trace, root, expect_flush, true)
+}
+
+/// `strict_mode`: any chmod of a visible inode counts as re-moding it (what the fault-free paths
+/// guarantee); otherwise only one that changes its mode bits (an error path that retries the whole
+/// publication repeats the same read-only chmod on what is already visible: no mode changes).
+pub fn order_violations_opt(trace: &[Ev], root: &str, expect_flush: bool, strict_mode: bool) -> Vec<(String, String)> {
     struct T<'a> {
         trace: &'a [Ev],
     }
@@ -158,7 +179,8 @@ pub fn order_violations(trace: &[Ev], root: &str, expect_flush: bool) -> Vec<(St
         }
         // immutable afterwards
         for e in &run.trace[*pi + 1..] {
-            if e.ino == ino && e.ok() && (is_content(e, ino) || matches!(e.kind, Kind::Chmod | Kind::Fchmod)) {
+            let remode = matches!(e.kind, Kind::Chmod | Kind::Fchmod) && (strict_mode || (e.arg & 0o222) != 0);
+            if e.ino == ino && e.ok() && (is_content(e, ino) || remode) {
                 bad.push(("modified-after-publication".into(), format!("{} on the published inode after it became visible", e.func)));
             }
             // (merely opening the published inode for writing changes nothing: filetime's path-touch
@@ -171,8 +193,12 @@ pub fn order_violations(trace: &[Ev], root: &str, expect_flush: bool) -> Vec<(St
 
 /// The per-inode ordering invariant, on a fault-free run of one matrix cell.
 pub fn check_order(run: &CellRun, expect_flush: bool) -> Vec<(String, String)> {
+    check_order_opt(run, expect_flush, true)
+}
+
+pub fn check_order_opt(run: &CellRun, expect_flush: bool, strict_mode: bool) -> Vec<(String, String)> {
     let root = run.dirs.write.to_string_lossy().into_owned();
-    let mut bad = order_violations(&run.trace, &root, expect_flush);
+    let mut bad = order_violations_opt(&run.trace, &root, expect_flush, strict_mode);
     let pubs: Vec<(usize, &Ev)> = run.trace.iter().enumerate().filter(|(_, e)| is_publication(e, &root)).collect();
     // a fresh entry under the key name must come from a monitored publication
     for (rel, node) in write_entries(run) {
@@ -271,6 +297,7 @@ fn base_cases() -> Vec<Case> {
                             maintain,
                             fault: None,
                             builder: 0,
+                            any_fault: None,
                         });
                         // auto-sync left at its default, with the builder obtained the other two ways
                         if auto_sync && !maintain && size == Size::One {
@@ -294,12 +321,29 @@ fn record(case: &Case, rep: &mut Report) {
     rep.traces += 1;
     let run = run_case(case);
     rep.transitions += run.trace.len() as u64;
+    if std::env::var("KVERIF_DUMP_TRACE").is_ok() {
+        for (i, e) in run.trace.iter().enumerate() {
+            eprintln!("{:3} {}{}", i, e.brief(), if e.injected { "   <== injected" } else { "" });
+        }
+        eprintln!("result: {}", run.outcome.res.label());
+    }
     let root = run.dirs.write.to_string_lossy().into_owned();
     let npubs = run.trace.iter().filter(|e| is_publication(e, &root)).count();
     if npubs > 0 {
         rep.count("nontrivial_count", 1);
     }
-    let bad = if case.fault.is_some() {
+    let bad = if case.any_fault.is_some() {
+        // whatever fails, and whatever the library does about it (give up, retry, fall back): an inode that
+        // becomes visible under a key was flushed after its last content event and made read-only first
+        rep.count("any_fault_cases", 1);
+        let mut b = check_order_opt(&run, true, false);
+        if let Res::Panic(p) = &run.outcome.res {
+            if !p.contains("auto_sync failed") {
+                b.push(("panic".into(), format!("panicked: {}", p)));
+            }
+        }
+        b
+    } else if case.fault.is_some() {
         rep.count("flush_fault_cases", 1);
         check_fault(&run)
     } else {
@@ -328,7 +372,10 @@ pub fn run(_tier: Tier, shard: Shard, rep: &mut Report) {
         re-using a builder after take() (auto-sync never mentioned: it must default to on); per published inode the trace must show last content event < successful \
         fsync < chmod stripping write bits <= publication, and no content/mode event afterwards. Then, for every auto_sync cell, each \
         fsync fails in turn with EIO and ENOSPC: the call must fail (or panic with the documented message for by-path set/put) and \
-        that inode must never be published. The same per-inode monitor also runs on every schedule with <= 2 preemptions of programs \
+        that inode must never be published. Then every other call of each auto_sync cell fails in turn in every plausible way (short \
+        writes, EXDEV/EMLINK/ESTALE on rename and link, failure after the effect, ...): whatever the library does about it, the same \
+        per-inode order must hold for everything that becomes visible, and nothing may appear under a key without a monitored \
+        publication. The same per-inode monitor also runs on every schedule with <= 2 preemptions of programs \
         where a write races with an outsider deleting the entry or with another writer (a decision not to flush must not rest on a \
         check another participant can invalidate). Non-trivial = the run contains a publication event."
         .into();
@@ -360,6 +407,21 @@ pub fn run(_tier: Tier, shard: Shard, rep: &mut Report) {
                 let mut c = case.clone();
                 c.fault = Some((k as i64, errno));
                 record(&c, rep);
+            }
+        }
+        // every call of the fault-free run fails in turn, in every plausible way (EXDEV on rename/link included)
+        if let Some(r) = &probe {
+            if case.builder == 0 && (_tier == Tier::Thorough || case.cell.size != Size::Empty) {
+                for (k, ev) in r.trace.iter().enumerate() {
+                    if ev.kind == Kind::Fsync {
+                        continue; // above
+                    }
+                    for a in crate::props::c18::plausible(ev, true) {
+                        let mut c = case.clone();
+                        c.any_fault = Some((k as u64, ev.kind, a));
+                        record(&c, rep);
+                    }
+                }
             }
         }
     }
